@@ -7,4 +7,5 @@ GO=go1.26.8
 command -v $GO >/dev/null 2>&1 || GO=/opt/veriftools/go1.26.8/bin/go
 mkdir -p bin .build evidence replays
 (cd sim && $GO build -o ../bin/simcheck ./cmd/simcheck)
+(cd autoyield && $GO build -o ../bin/autoyield .)
 echo "setup ok"
